@@ -1240,6 +1240,70 @@ Qed.
 End WithEnv.
 
 (* ------------------------------------------------------------------------------------------ *)
+(* ---- lookups in sets and maps (any comparable key type; no sortedness needed) ---- *)
+Lemma bytes_eqb_sym a b : bytes_eqb a b = bytes_eqb b a.
+Proof.
+  destruct (bytes_eqb a b) eqn:E1, (bytes_eqb b a) eqn:E2; try reflexivity.
+  - apply bytes_eqb_spec in E1. subst. assert (bytes_eqb b b = true) by (apply bytes_eqb_spec; reflexivity). congruence.
+  - apply bytes_eqb_spec in E2. subst. assert (bytes_eqb a a = true) by (apply bytes_eqb_spec; reflexivity). congruence.
+Qed.
+
+Lemma bool_eqb_sym a b : Bool.eqb a b = Bool.eqb b a.
+Proof. destruct a, b; reflexivity. Qed.
+
+Lemma py_eq_sym a : forall b, py_eq a b = py_eq b a.
+Proof.
+  induction a as [z|z|z|z|s|s|s|s|b0| |x y IHx IHy|t0|x IHx|x t0 IHx|t0 x IHx|t0 l IHl|t0 l IHl|kt vt l IHl|ta tb body] using pval_ind';
+    intros b; destruct b; simpl; try reflexivity; try apply Z.eqb_sym; try apply bytes_eqb_sym; try apply bool_eqb_sym;
+    try (rewrite IHx, IHy; reflexivity); try apply IHx.
+  all: match goal with |- _ ?l1 ?l2 = _ ?l2 ?l1 => revert l2; induction IHl as [|x r Hx Hr IH]; intros [|y s]; try reflexivity;
+         rewrite Hx, IH; reflexivity end.
+Qed.
+
+Lemma set_mem_agree x l t : typed x t -> Forall (fun y => typed y t) l -> comparable t = true ->
+  v_set_mem (erase x) (map erase l) = Some (py_set_contains x l).
+Proof.
+  intros Hx Hl Hc. induction Hl as [|y l Hy Hl IH]; simpl; [reflexivity|].
+  destruct (compare_agree x t y Hx Hy Hc) as (c & E & Q & _). rewrite E, Q. unfold py_set_contains in IH.
+  destruct c; simpl; [reflexivity | exact IH | exact IH].
+Qed.
+
+Definition entry_typed (kt vt : ty) (x : pval) : Prop := exists k v, x = PPair k v /\ typed k kt /\ typed v vt.
+
+Lemma map_get_agree k l kt vt : typed k kt -> Forall (entry_typed kt vt) l -> comparable kt = true ->
+  v_map_get (erase k) (map erase l) = Some (option_map erase (py_map_get k l)).
+Proof.
+  intros Hk Hl Hc. induction Hl as [|y l Hy Hl IH]; simpl; [reflexivity|].
+  destruct Hy as (k' & v & -> & Hk' & Hv). simpl.
+  destruct (compare_agree k kt k' Hk Hk' Hc) as (c & E & Q & _). rewrite E. rewrite (py_eq_sym k' k), Q.
+  destruct c; simpl; [reflexivity | exact IH | exact IH].
+Qed.
+
+(* MEM and GET: the pytezos step (class check included) agrees with the reference rule *)
+Lemma mem_get_agree (e : env) x t l vt lm :
+  typed x t -> comparable t = true -> Forall (fun y => typed y t) l -> Forall (entry_typed t vt) lm ->
+  (exists fn, py_simple e I_MEM = Some (2, fn) /\
+     fn [x; PSet t l] = POk [PBool (py_set_contains x l)] /\
+     ref_simple e I_MEM (erase x :: VSet (map erase l) :: nil) = Done [VBool (py_set_contains x l)]) /\
+  (exists fn, py_simple e I_GET = Some (2, fn) /\
+     exists r, fn [x; PMap t vt lm] = POk [r] /\ typed r (TOption vt) /\
+     ref_simple e I_GET (erase x :: VMap (map erase lm) :: nil) = Done [erase r]).
+Proof.
+  intros Hx Hc Hl Hlm. split.
+  - eexists. split; [reflexivity|]. cbn [ref_simple]. rewrite (typed_rt_type x t Hx), ty_eqb_refl.
+    rewrite (set_mem_agree x l t Hx Hl Hc). auto.
+  - eexists. split; [reflexivity|]. cbn [ref_simple]. rewrite (typed_rt_type x t Hx), ty_eqb_refl.
+    rewrite (map_get_agree x lm t vt Hx Hlm Hc).
+    exists (py_opt vt (py_map_get x lm)). split; [reflexivity|].
+    assert (Hg : forall v, py_map_get x lm = Some v -> typed v vt).
+    { clear - Hlm. induction Hlm as [|y l Hy Hl IH]; simpl; [discriminate|].
+      destruct Hy as (k' & v' & -> & _ & Hv). destruct (py_eq k' x); [intros v E; injection E as <-; exact Hv | exact IH]. }
+    destruct (py_map_get x lm) as [v|] eqn:E; simpl.
+    + split; [apply (Hg v eq_refl) | reflexivity].
+    + split; [unfold typed; simpl; apply ty_eqb_refl | reflexivity].
+Qed.
+
+(* ------------------------------------------------------------------------------------------ *)
 (* kernel-checked witnesses of the known finding (MAP over an empty list keeps the source class). *)
 (* Each fact is one closed equation proved by vm_compute, so that Qed re-checks it with a vm cast. *)
 (* ------------------------------------------------------------------------------------------ *)
